@@ -55,6 +55,7 @@ fn candidates(sc: &Scenario) -> Vec<Scenario> {
         }
     }
     push(&|c| c.dense = false);
+    push(&|c| c.low_dense = true);
     push(&|c| c.max_step = None);
     push(&|c| c.min_step = None);
     push(&|c| c.max_steps = None);
